@@ -384,7 +384,14 @@ class MergeEngine:
     @staticmethod
     def get_remove_cset(engine, csets):
         """Generate the cset of what files shall be removed from the livefs."""
-        return csets["old_cset"].difference(csets["install"])
+        remove = csets["old_cset"].difference(csets["install"])
+        # an old entry recorded through a directory symlink (/lib/x, /lib -> usr/lib)
+        # is the same file as what the new pkg installs under the other spelling.
+        resolve = livefs._realpath_dir()
+        installed = {resolve(x.location) for x in csets["install"]}
+        return contents.contentsSet(
+            (x for x in remove if resolve(x.location) not in installed), mutable=True
+        )
 
     @staticmethod
     def get_replace_cset(engine, csets):
